@@ -23,7 +23,7 @@ class UnusedTranslator:
     """Removes unecessary predicates and arities from the program"""
 
     def __init__(self, prg: list[AST], input_predicates: list[Predicate], output_predicates: list[Predicate]):
-        self.unique_names = UniqueNames(prg, input_predicates)
+        self.unique_names = UniqueNames(prg, list(input_predicates) + list(output_predicates))
         self.input_predicates = input_predicates
         self.output_predicates = output_predicates
         self.used_positions: dict[Predicate, set[int]] = defaultdict(set)
